@@ -17,3 +17,5 @@ def x_only(prop, level="proof", explanation=None):
 CHECKS = {p: x_only(p) for p in ("C01", "C02", "C03", "C04", "C05", "C06", "C07", "C08", "C11", "C12", "C13", "C16")}
 CHECKS["C09"] = standins.check_c09
 CHECKS["C10"] = standins.check_c10
+CHECKS["C14"] = standins.check_c14
+CHECKS["C17"] = standins.check_c17
